@@ -101,14 +101,14 @@ Print Assumptions C07_metadata_partition.
 
 (* HSDP: every replica of a shard column equals the FSDP-only run of that column whose communicated quantity goes through
    the rounding cast - block values, step counter, shards, states of the owned blocks - and no collective blocks.
-   Hypothesis (as in C06): nobody starves (sync_hyp = p_global_skip = true \/ no_starvation). *)
+   No hypothesis on the history: with the skip rule as repaired (F6; p_global_skip = true in the column's parameters) the
+   C06 hypothesis p_global_skip = true \/ no_starvation is discharged for every history, starving ones included. *)
 Theorem C07_hsdp_eq_fsdp_plus_ddp :
   forall (bstate elem : Type) (ds : bstate) (delem : elem)
          (upd : nat -> Z -> bstate -> list elem -> list elem -> bstate * list elem) (apply : list elem -> list elem -> list elem)
          (cast : list elem -> list elem) (R gs : nat) (owner : nat -> nat) (thr : Z) (merge : bool) (ms : list meta)
          (T : list (list elem)) (h : list (pentry elem)),
     wf_config (hsdp_P ds upd apply cast R gs owner thr merge ms) ->
-    sync_hyp (hsdp_P ds upd apply cast R gs owner thr merge ms) (map (fsdp_entry delem thr (fsdp_init thr merge ms) ms) h) ->
     exists c, hsdp_col_run ds delem upd apply cast R gs owner thr merge ms T h = Some c /\
       forall i, (i < R)%nat ->
         vals (cget c i) = svals (fsdp_run ds delem upd apply cast thr merge ms T h)
@@ -128,7 +128,6 @@ Theorem C07_hsdp_eq_serial_on_recovered :
          (T : list (list elem)) (h : list (pentry elem)),
     (forall v, cast v = v) ->
     wf_config (hsdp_P ds upd apply cast R gs owner thr merge ms) ->
-    sync_hyp (hsdp_P ds upd apply cast R gs owner thr merge ms) (map (fsdp_entry delem thr (fsdp_init thr merge ms) ms) h) ->
     1 <= thr -> Forall meta_ok ms -> tensors_ok ms T -> Forall (pentry_ok ms) h ->
     exists c, hsdp_col_run ds delem upd apply cast R gs owner thr merge ms T h = Some c /\
       forall i, (i < R)%nat ->
@@ -147,7 +146,6 @@ Theorem C07_hsdp_replicas_agree :
          (cast : list elem -> list elem) (R gs : nat) (owner : nat -> nat) (thr : Z) (merge : bool) (ms : list meta)
          (T : list (list elem)) (h : list (pentry elem)) c,
     wf_config (hsdp_P ds upd apply cast R gs owner thr merge ms) ->
-    sync_hyp (hsdp_P ds upd apply cast R gs owner thr merge ms) (map (fsdp_entry delem thr (fsdp_init thr merge ms) ms) h) ->
     hsdp_col_run ds delem upd apply cast R gs owner thr merge ms T h = Some c ->
     forall i i', (i < R)%nat -> (i' < R)%nat ->
       hsdp_shards delem thr merge ms T c i = hsdp_shards delem thr merge ms T c i' /\ stepc (cget c i) = stepc (cget c i').
@@ -161,7 +159,6 @@ Theorem C07_hsdp_collective_logs_equal :
          (cast : list elem -> list elem) (R gs : nat) (owner : nat -> nat) (thr : Z) (merge : bool) (ms : list meta)
          (T : list (list elem)) (h : list (pentry elem)) c,
     wf_config (hsdp_P ds upd apply cast R gs owner thr merge ms) ->
-    sync_hyp (hsdp_P ds upd apply cast R gs owner thr merge ms) (map (fsdp_entry delem thr (fsdp_init thr merge ms) ms) h) ->
     hsdp_col_run ds delem upd apply cast R gs owner thr merge ms T h = Some c ->
     forall i i', (i < R)%nat -> (i' < R)%nat ->
       grp (hsdp_P ds upd apply cast R gs owner thr merge ms) i = grp (hsdp_P ds upd apply cast R gs owner thr merge ms) i' ->
@@ -169,15 +166,18 @@ Theorem C07_hsdp_collective_logs_equal :
 Proof. exact @hsdp_collective_logs_equal. Qed.
 Print Assumptions C07_hsdp_collective_logs_equal.
 
-(* EXPECTED REFUTATION (defect F6 through the HSDP copy of update_params; known finding C07:rank-starvation): without the
-   no-starvation hypothesis the statement is false on the faithful model - a step that leaves a rank of the replicate
-   group with owned blocks but none with a gradient, while its peer has one, blocks the collective. *)
-Theorem C07_hsdp_starvation_refuted :
+(* Defect F6 through the HSDP copy of update_params (repaired in /repo): a step that leaves a rank of the replicate group
+   with owned blocks but none with a gradient, while its peer has one, is harmless - the run exists, replicas and step
+   counters agree - whereas in the pre-repair variant (p_global_skip = false) the collective blocks. *)
+Theorem C07_hsdp_starvation_harmless :
   wf_config ex_hP_bad /\ (forall r, (r < 2)%nat -> owns_any ex_hP_bad r = true)
   /\ no_starv_entry ex_hP_bad (nth 1 (map (fsdp_entry 0 2 (fsdp_init 2 true ex_ms) ex_ms) ex_h_bad) []) = false
-  /\ hsdp_col_run 0 0 ex_upd ex_add (fun v => v) 2 2 ex_owner_bad 2 true ex_ms ex_T ex_h_bad = None.
-Proof. exact hsdp_starvation_refuted. Qed.
-Print Assumptions C07_hsdp_starvation_refuted.
+  /\ (exists c, hsdp_col_run 0 0 ex_upd ex_add (fun v => v) 2 2 ex_owner_bad 2 true ex_ms ex_T ex_h_bad = Some c
+         /\ vals (cget c 0) = vals (cget c 1) /\ stepc (cget c 0) = 2%Z /\ stepc (cget c 1) = 2%Z)
+  /\ ddp_run (set_global_skip ex_hP_bad false) (map (fsdp_entry 0 2 (fsdp_init 2 true ex_ms) ex_ms) ex_h_bad)
+             (hsdp_col_init 0 0 ex_upd ex_add (fun v => v) 2 2 ex_owner_bad 2 true ex_ms ex_T) = None.
+Proof. exact hsdp_starvation_harmless. Qed.
+Print Assumptions C07_hsdp_starvation_harmless.
 
 (* The checkers evaluated on what the simulated ranks did. *)
 Theorem C07_checker_sound :
